@@ -122,6 +122,16 @@ func Gen(t *rapid.T, o Opts) Layout {
 		if codec != 0 {
 			lab["compressed"] = true
 		}
+		// a topic configured with message.timestamp.type=LogAppendTime: the broker sets the timestamp-type bit of the
+		// attributes and stamps the batch; every record of the batch then carries the same time (generated that way, so that
+		// the stored timestamps do not depend on which field a consumer reads them from)
+		logAppend := magic >= 1 && rapid.IntRange(0, 5).Draw(t, "logAppendTime") == 0
+		if logAppend {
+			for i := range recs {
+				recs[i].Timestamp = recs[0].Timestamp
+			}
+			lab["log_append_time"] = true
+		}
 		switch magic {
 		case 2:
 			b := refcodec.MakeBatchV2(recs, codec)
@@ -133,6 +143,9 @@ func Gen(t *rapid.T, o Opts) Layout {
 				lab["hole_at_batch_tail"] = true
 			}
 			b.SnappyXerial = rapid.Bool().Draw(t, "xerial")
+			if logAppend {
+				b.LogAppendTime, b.MaxTimestamp = true, b.FirstTimestamp
+			}
 			l.Batches = append(l.Batches, b)
 			off = base + int64(b.LastOffsetDelta) + 1
 		default:
@@ -142,7 +155,7 @@ func Gen(t *rapid.T, o Opts) Layout {
 					recs[i].Timestamp = 0
 				}
 			}
-			b := refcodec.Batch{Magic: magic, Codec: codec, Records: recs, RelativeInner: true, SnappyXerial: rapid.Bool().Draw(t, "xerial")}
+			b := refcodec.Batch{Magic: magic, Codec: codec, Records: recs, RelativeInner: true, SnappyXerial: rapid.Bool().Draw(t, "xerial"), LogAppendTime: logAppend && magic == 1}
 			if codec != 0 {
 				lab["v1_wrapper_relative"] = true
 			}
